@@ -37,10 +37,10 @@ EPS = np.finfo(float).eps
 
 def plan(tier, seed):
     if tier == "quick":
-        kinds = {"pair": 16000, "tree": 3000, "compiled": 1800, "refined": 160}
+        kinds = {"pair": 16000, "tree": 3000, "compiled": 1800, "refined": 160, "linked": 1200}
         per = 2000
     else:
-        kinds = {"pair": 1500000, "tree": 200000, "compiled": 60000, "refined": 4000}
+        kinds = {"pair": 1500000, "tree": 200000, "compiled": 60000, "refined": 4000, "linked": 60000}
         per = 50000
     sh = common.shards(kinds, per_shard=per, tier=tier, seed=seed)
     # compiled shards pay the numba compilation once each: keep them few
@@ -238,6 +238,75 @@ def judge_tree(case, rec):
     rec.count(f"tree_size:{len(ds)}")
 
 
+def judge_linked(case, rec):
+    """Compiled code merges droplets through the array that Emulsion.get_linked_data() ties to the droplets of an
+    emulsion.  One emulsion is coarsened into its first droplet by a mixture of the three paths (droplet.merge in
+    place, the class's merge function on rows of the linked array, a compiled kernel on the linked array) - possibly
+    after a member was exchanged and the emulsion was linked again - and must end, seen through its droplets, with
+    the total volume at the centre of mass, exactly like merging out of place."""
+    import droplets
+
+    ds = case["droplets"]
+    dim = len(ds[0]["pos"])
+    r = np.random.default_rng(case["order_seed"])
+    em = droplets.Emulsion([_mk(d) for d in ds])
+    cls = type(em[0])
+    data = em.get_linked_data()
+    n = len(em)
+    history = ["linked"]
+    if r.random() < 0.5:
+        k = int(r.integers(0, n))
+        new = em[k].copy()
+        new.radius = float(new.radius * r.uniform(1.5, 3.0))
+        new.position = np.asarray(new.position) + r.normal(0, 1.0 + abs(new.radius), dim)
+        how = int(r.integers(0, 3))
+        if how == 0:
+            em[k] = new
+        elif how == 1:
+            em.pop(k)
+            em.insert(k, new)
+        else:
+            del em[k]
+            em.append(new)
+        history.append(f"member {k} exchanged ({['setitem', 'pop+insert', 'del+append'][how]})")
+        if r.random() < 0.85:
+            data = em.get_linked_data()
+            history.append("linked again")
+        else:
+            data = None  # the emulsion was not linked again: only the droplets' own merge is used below
+    members = [d.copy() for d in em]
+    vols = np.array([vol(float(d.radius), dim) for d in members])
+    V = float(vols.sum())
+    com = (vols[:, None] * np.array([np.asarray(d.position, float) for d in members])).sum(axis=0) / V
+    scale = max(float(np.abs(np.array([np.asarray(d.position, float) for d in members])).max()), 1e-300)
+    f = compiled_merge(cls, em[0].data.dtype)
+    for j in range(1, n):
+        path = int(r.integers(0, 3)) if data is not None else 0
+        if path == 0:
+            c = common.monitored(rec, "merge(inplace)", em[0].merge, em[j], inplace=True)
+        elif path == 1:
+            rows = data.view(np.recarray)
+            c = common.monitored(rec, "_merge_data", cls._merge_data, rows[0], rows[j], out=rows[0])
+        else:
+            c = common.monitored(rec, "compiled-merge", f, data, 0, j, 0)
+        history.append(["droplet.merge(inplace)", "_merge_data on linked rows", "compiled kernel on linked array"][path])
+        if not rec.check(c.ok, "no-exception", f"{history[-1]} raised {c.exc!r}; droplets={ds} steps={history}"):
+            return
+    m = em[0]
+    rec.check(abs(vol(float(m.radius), dim) - V) <= 1e-11 * V and
+              bool(np.all(np.abs(np.asarray(m.position, float) - com) <= 1e-11 * scale)), "paths-agree",
+              f"coarsening a linked emulsion into its first droplet: that droplet has volume {vol(float(m.radius), dim)!r} at "
+              f"{list(map(float, m.position))}, expected {V!r} at {com.tolist()}; steps={history} droplets={ds}")
+    if data is not None:
+        rec.check(abs(vol(float(data[0]['radius']), dim) - V) <= 1e-11 * V and
+                  bool(np.all(np.abs(np.asarray(data[0]['position'], float) - com) <= 1e-11 * scale)), "paths-agree",
+                  f"coarsening a linked emulsion into its first droplet: row 0 of the linked array has volume "
+                  f"{vol(float(data[0]['radius']), dim)!r} at {np.asarray(data[0]['position'], float).tolist()}, expected {V!r} at "
+                  f"{com.tolist()}; steps={history} droplets={ds}")
+    rec.evaluated(nontrivial=True)
+    rec.count("linked:" + ("exchanged" if len(history) > 1 and "exchanged" in history[1] else "plain"))
+
+
 _compiled_cache: dict = {}
 
 
@@ -301,6 +370,9 @@ def judge_refined(case, rec):
 def run(case, rec):
     if case["kind"] == "refined":
         judge_refined(case, rec)
+        return
+    if case["kind"] == "linked":
+        judge_linked(case, rec)
         return
     if case["kind"] == "pair":
         judge_pair(case, rec)
